@@ -74,6 +74,22 @@ struct OptDseState<'a, C: CellType> {
     written: HashSet<isize>,
 }
 
+/// Compute `1 + mul + mul^2 + ... + mul^(count - 1)` using wrapping arithmetic.
+fn geometric_sum<C: CellType>(mul: C, mut count: C) -> C {
+    let mut result = C::ZERO;
+    let mut pow = mul;
+    let mut sum = C::ONE;
+    while count != C::ZERO {
+        if count.is_odd() {
+            result = result.wrapping_mul(pow).wrapping_add(sum);
+        }
+        sum = sum.wrapping_mul(pow.wrapping_add(C::ONE));
+        pow = pow.wrapping_mul(pow);
+        count = count.wrapping_shr(1);
+    }
+    result
+}
+
 impl<C: CellType> OptLoop<C> {
     /// Runs exactly as often as indicated by `expr` evaluated before the loop.
     fn expr(expr: Expr<C>) -> Self {
@@ -758,22 +774,16 @@ impl<C: CellType> OptRebuild<'_, C> {
                                 None,
                             ];
                         } else if inc.variables().all(|x| constant.contains(&x)) {
-                            if let Some(m) = mul
-                                .wrapping_pow(c)
-                                .wrapping_mul(mul)
-                                .wrapping_add(C::NEG_ONE)
-                                .wrapping_div(mul.wrapping_add(C::NEG_ONE))
-                            {
-                                return [
-                                    Some(
-                                        Expr::val(mul.wrapping_pow(c))
-                                            .mul(Expr::var(var))
-                                            .add(Expr::val(m).mul(inc)),
-                                    ),
-                                    None,
-                                    None,
-                                ];
-                            }
+                            let m = geometric_sum(mul, c);
+                            return [
+                                Some(
+                                    Expr::val(mul.wrapping_pow(c))
+                                        .mul(Expr::var(var))
+                                        .add(Expr::val(m).mul(inc)),
+                                ),
+                                None,
+                                None,
+                            ];
                         }
                     }
                 }
